@@ -40,6 +40,14 @@ const (
 
 var _ authorizer.Authorizer = &MultiClusterSubjectAccessReviewAuthorizer{}
 
+// cacheKey identifies a decision cache. A host name can move from one cluster to another while both
+// are alive (server names are mutable), so the cluster the host resolved to is part of the key: a
+// decision made by one cluster is never applied to a request that resolves to another one.
+type cacheKey struct {
+	host    string
+	cluster *clusters.ClusterInfo
+}
+
 type MultiClusterSubjectAccessReviewAuthorizer struct {
 	// allowCacheTTL is the length of time that a successful authorization response will be cached
 	allowCacheTTL time.Duration
@@ -76,14 +84,15 @@ func (a *MultiClusterSubjectAccessReviewAuthorizer) Authorize(ctx context.Contex
 		return a.decisionOnError, "", err
 	}
 
-	c, loaded := a.caches.Load(host)
+	cacheKey := cacheKey{host: host, cluster: cluster}
+	c, loaded := a.caches.Load(cacheKey)
 	if !loaded {
-		c, loaded = a.caches.LoadOrStore(host, cache.NewLRUExpireCache(8192))
+		c, loaded = a.caches.LoadOrStore(cacheKey, cache.NewLRUExpireCache(8192))
 		// destry cache when cluster stopped
 		if !loaded {
 			go func() {
 				<-cluster.Context().Done()
-				a.caches.Delete(host)
+				a.caches.Delete(cacheKey)
 			}()
 		}
 	}
